@@ -88,7 +88,7 @@ def _retry(
         try:
             return func(*args, **kwargs)
         except exceptions:
-            logger.warning(f'Exception thrown when attempting to run {func.__name__}, '
+            logger.warning(f'Exception thrown when attempting to run {getattr(func, "__name__", repr(func))}, '
                            f'attempt {attempt} of {attempts}')
             attempt += 1
             time.sleep(sleep_time.total_seconds())
